@@ -53,8 +53,12 @@ GStep ==
      \/ \E f \in LiveIds(st, "func") : st.funcs[f + 1].sig = "()->()" /\ st' = SetStart(st, f) /\ hist' = Append(hist, [op |-> "set_start", id |-> f])
      \/ st' = SetStart(st, -1) /\ hist' = Append(hist, [op |-> "clear_start"])
 
+RF == {Inits[k].rf[q] : q \in DOMAIN Inits[k].rf}
+\* only well-formed edits are generated: no step removes the last declaration of a function a body names by ref.func
+GStepWF == GStep /\ RefFuncOK(st', RF)
+
 GInit == k \in 1..Len(Inits) /\ st = Inits[k].state /\ nedits = 0 /\ hist = <<>>
-GSpec == GInit /\ [][GStep]_gvars
+GSpec == GInit /\ [][GStepWF]_gvars
 
 EmitCase == nedits = MaxEdits => PrintT("CASE " \o ToJson([id |-> Inits[k].id, edits |-> hist]))
 StillWF == WF(st)
